@@ -33,6 +33,8 @@ def vclass(v: dict) -> str:
 
 
 def load_known(prop: str) -> list[dict]:
+    if os.environ.get("VERIF_NO_KNOWN") == "1":  # maintenance only: regenerate the example replays under known/
+        return []
     try:
         with open(KNOWN_PATH) as f:
             data = json.load(f)
@@ -194,7 +196,11 @@ class Driver:
             e = self.known_entry[eid]
             lines.append(f"KNOWN-FINDING: property={c.PROP} {e['what']} (id={eid}, hit {n}x this run)")
         replay_dir = os.path.join(os.environ.get("VERIF_REPLAY_DIR") or os.path.join(VERIF, "replays"), c.PROP)
+        finish_end = time.monotonic() + 3.0 * float(plan.get("minimise_s", 45))
+        n_left = len(self.viol_by_class)
         for cls, rec in sorted(self.viol_by_class.items()):
+            per_class = max(8.0, min(float(plan.get("minimise_s", 45)), (finish_end - time.monotonic()) / max(1, n_left)))
+            n_left -= 1
             v, spec = rec["violation"], rec["spec"]
             os.makedirs(replay_dir, exist_ok=True)
             if spec is None:
@@ -207,10 +213,14 @@ class Driver:
                 rc = 1
                 continue
             size0 = c.spec_size(spec) if hasattr(c, "spec_size") else None
+            if hasattr(c, "pre_minimise"):
+                spec = c.pre_minimise(spec, cls)
             if hasattr(c, "minimise"):
-                mspec, steps = c.minimise(self, spec, cls, float(plan.get("minimise_s", 45)))
+                mspec, steps = c.minimise(self, spec, cls, per_class)
             else:
-                mspec, steps = self.minimise(pool, spec, cls, budget_s=float(plan.get("minimise_s", 45)))
+                mspec, steps = self.minimise(pool, spec, cls, budget_s=per_class)
+            if hasattr(c, "post_minimise"):
+                mspec = c.post_minimise(mspec, cls)
             res = self.run_spec(pool, [mspec])[0]
             vv = [x for x in (res or {}).get("violations", []) if vclass(x) == cls]
             if not vv:
